@@ -2,7 +2,8 @@
 C08 driver — model side of the regex-radix-tree correspondence (also used by C12, see Drivers/C12.lean).
 
 case: {"mode": "beh"|"snap"|"rx"|"cp", "ic": bool, "unique": bool, "ops": [op..], "hay": [string..]}
-  op  = ["i", pat, id, v] | ["r", id] | ["k", [id..]] | ["c", limit, level|null]
+  op  = ["i", pat, id, v] | ["r", id] | ["k", [id..]] | ["m", [id..], delta] | ["c", limit, level|null]
+        ("m": retain whose closure adds `delta` to the value (`&mut V`) and keeps the ids listed)
   pat = [["l", text] | ["g", body] ..]     (literal text is escaped char by char, a group is "(" body ")")
   unique=true: `UniqueRegexTreeMap` (the id of an insert is the rendered pattern; "r" takes that string).
 mode beh : per op {len, empty, find[per haystack, sorted], get[per pattern, sorted], iter(sorted), rem}
@@ -10,6 +11,13 @@ mode beh : per op {len, empty, find[per haystack, sorted], get[per pattern, sort
            "s" is omitted outside the property's domain (tag out-of-domain), kept with sig class-paren when
            the only reason is a group the tree's scanner mis-brackets.
 mode snap: per op {snap (structure as `verif_snapshot()`), ret (returned budget of cache), clen, inv}
+mode real: the case carries "snaps": `verif_snapshot()` of the REAL tree after every op (computed by `c08 gen`,
+           which runs the real code).  Each snapshot is parsed into the model's `Item` (values looked up in the
+           flat reference list), the SAME decidable `Item.inv` the theorems use is evaluated on it, its contents are
+           compared with the live entries, and the model's find/get/len/is_empty/iter run ON THAT VERY STATE ("m");
+           "s" = linear scan of the live entries; both carry the flags {inv, contents}.  A real state violating
+           the invariant is an oracle failure with sig inv-broken-on-real-state (contents differing from the live
+           entries: contents-mismatch-on-real-state).
 mode rx  : per pattern {p, ok, m[per haystack], pre[[k, ok, m[..]] per scanner-boundary k]} – validates
            Model/Regex (+ render, + the scanner) against the real crate.
 mode cp  : {"a","b","n"} -> [common_prefix_char_size(a,b), get_prefix_with_char_size(a,n)]
@@ -42,6 +50,7 @@ inductive DOp where
   | ins (p : List Char) (id : String) (v : Nat)
   | rem (id : String)
   | keep (ids : List String)
+  | mut (ids : List String) (delta : Nat)
   | cache (limit : Nat) (level : Option Nat)
 
 def parseOp (unique : Bool) (j : Json) : Except String DOp := do
@@ -61,6 +70,11 @@ def parseOp (unique : Bool) (j : Json) : Except String DOp := do
     if a.size != 2 then throw "k arity"
     let ids ← (fromJson? a[1]! : Except String (Array String))
     return .keep ids.toList
+  else if k == "m" then
+    if a.size != 3 then throw "m arity"
+    let ids ← (fromJson? a[1]! : Except String (Array String))
+    let delta ← (fromJson? a[2]! : Except String Nat)
+    return .mut ids.toList delta
   else if k == "c" then
     if a.size != 3 then throw "c arity"
     let limit ← (fromJson? a[1]! : Except String Nat)
@@ -70,10 +84,14 @@ def parseOp (unique : Bool) (j : Json) : Except String DOp := do
     return .cache limit level
   else throw "op kind"
 
+def mutF (ids : List String) (delta : Nat) : String → Nat → Option Nat :=
+  fun id v => if ids.contains id then some (v + delta) else none
+
 def toOp : DOp → Op String Nat
   | .ins p id v => .insert p id v
   | .rem id => .remove id
-  | .keep ids => .retain (fun id _ => ids.contains id)
+  | .keep ids => .retain (keepIf fun id _ => ids.contains id)
+  | .mut ids delta => .retain (mutF ids delta)
   | .cache l lv => .cache l lv
 
 def sortNat (l : List Nat) : List Nat := l.mergeSort (· ≤ ·)
@@ -120,8 +138,10 @@ def stepOp (st : Step) (op : DOp) : Step :=
     { tree := r.1, ref := refRemove st.ref id,
       rem := match r.2 with | some v => toJson v | none => Json.null }
   | .keep ids =>
-    let f := fun (id : String) (_ : Nat) => ids.contains id
+    let f : String → Nat → Option Nat := keepIf fun id _ => ids.contains id
     { tree := st.tree.retain f, ref := refRetain st.ref f }
+  | .mut ids delta =>
+    { tree := st.tree.retain (mutF ids delta), ref := refRetain st.ref (mutF ids delta) }
   | .cache limit level =>
     match treeCache E st.tree limit level with
     | some r => { tree := r.1, ref := st.ref, ret := toJson r.2 }
@@ -158,6 +178,47 @@ def obsSnap (ic : Bool) (st : Step) : Json :=
   Json.mkObj [("snap", snap st.tree), ("ret", st.ret), ("clen", toJson st.tree.cachedLen),
     ("inv", toJson (st.tree.inv ic))]
 
+/-! ### mode real: the hook snapshot of the real tree, parsed into the model's tree type -/
+
+structure Parsed where
+  tree : T
+  valuesOk : Bool      -- every (pattern, id) of the snapshot is a live entry
+  stringsOk : Bool     -- the `regex` strings are the ones `LazyRegex::new_leaf/new_node` build
+
+def lookupVal (L : List (Entry String Nat)) (p : List Char) (id : String) : Option Nat :=
+  (L.find? fun e => e.pat == p && e.id == id).map (·.val)
+
+partial def parseSnap (L : List (Entry String Nat)) (j : Json) : Except String Parsed := do
+  let kind ← Drv.str? j "kind"
+  let ic ← Drv.bool? j "ignore_case"
+  if kind == "empty" then return ⟨.empty ic, true, true⟩
+  let compiled ← Drv.bool? j "compiled"
+  let rstr := (← Drv.str? j "regex").toList
+  if kind == "node" then
+    let q := (← Drv.str? j "prefix").toList
+    let cs ← (← Drv.arr? j "children").toList.mapM (parseSnap L)
+    let okStr := rstr == (if q.isEmpty then ".*".toList else '^' :: q)
+    return ⟨.node ⟨q, false, ic, compiled⟩ (cs.map (·.tree)), cs.all (·.valuesOk), okStr && cs.all (·.stringsOk)⟩
+  else if kind == "leaf" then
+    let p := (← Drv.str? j "pattern").toList
+    let ids ← (← Drv.arr? j "ids").toList.mapM (fun x => (fromJson? x : Except String String))
+    let vs := ids.map fun id => (id, lookupVal L p id)
+    return ⟨.leaf ⟨p, true, ic, compiled⟩ (vs.map fun (id, v) => (id, v.getD 0)), vs.all (·.2.isSome),
+      rstr == '^' :: (p ++ ['$'])⟩
+  else throw "snapshot kind"
+
+def sortKeys (l : List (String × String)) : List (String × String) :=
+  l.mergeSort fun a b => decide (a.1 < b.1) || (a.1 == b.1 && decide (a.2 ≤ b.2))
+
+/-- contents(real state) ≈ live entries (as multisets of (pattern, id); values were looked up by key). -/
+def contentsOk (ps : Parsed) (L : List (Entry String Nat)) : Bool :=
+  ps.valuesOk &&
+    sortKeys (ps.tree.contents.map fun e => (String.ofList e.pat, e.id)) ==
+    sortKeys (L.map fun e => (String.ofList e.pat, e.id))
+
+def withFlags (j : Json) (inv contents : Bool) : Json :=
+  j.setObjVal! "inv" (toJson inv) |>.setObjVal! "contents" (toJson contents)
+
 def boundaryKs (p : List Char) : List Nat :=
   (List.range (p.length + 1)).filter fun k => k > 0 && (scan b0 (p.take k)).atBoundary
 
@@ -192,13 +253,39 @@ def handle (j : Json) : Except String Json := do
   let steps := stepsRev.reverse
   if mode == "snap" then
     return Json.mkObj [("m", Json.arr (steps.map fun (st, _) => obsSnap ic st).toArray)]
-  if mode != "beh" then throw "mode"
-  let m := Json.arr (steps.map fun (st, _) => obsBeh unique hay pats st).toArray
-  let s := Json.arr (steps.map fun (st, rem) => specBeh ic unique hay pats st.ref rem).toArray
   let idsOk := histOk (fun _ => true) ([] : List (Entry String Nat)) (ops.map toOp)
   let allGood := pats.all domGood
   let allTok := pats.all domTok
   let mis := pats.any misBracketed
+  if mode == "real" then
+    let snaps ← Drv.arr? j "snaps"
+    if snaps.size != steps.length then throw "snaps arity"
+    let parsed ← (steps.zip snaps.toList).mapM fun ((st, rem), sj) => do
+      let ps ← parseSnap st.ref sj
+      let inv := ps.tree.inv ic && ps.stringsOk
+      let cok := contentsOk ps st.ref
+      let m := withFlags (obsBeh unique hay pats { st with tree := ps.tree, rem := rem }) inv cok
+      let s := withFlags (specBeh ic unique hay pats st.ref rem) inv cok
+      return (m, s, inv, cok)
+    let m := Json.arr (parsed.map (·.1)).toArray
+    let s := Json.arr (parsed.map (·.2.1)).toArray
+    let invAll := parsed.all (·.2.2.1)
+    let cokAll := parsed.all (·.2.2.2)
+    if !invAll then
+      return Json.mkObj [("m", m), ("s", if idsOk && allGood then s else m), ("sig", "inv-broken-on-real-state"),
+        ("tags", Json.arr #["inv-broken-on-real-state"])]
+    else if !cokAll then
+      return Json.mkObj [("m", m), ("s", if idsOk && allGood then s else m), ("sig", "contents-mismatch-on-real-state"),
+        ("tags", Json.arr #["contents-mismatch-on-real-state"])]
+    else if idsOk && allGood then
+      return Json.mkObj [("m", m), ("s", s)]
+    else if idsOk && allTok && mis then
+      return Json.mkObj [("m", m), ("s", s), ("sig", "class-paren"), ("tags", Json.arr #["class-paren"])]
+    else
+      return Json.mkObj [("m", m), ("tags", Json.arr #["out-of-domain"])]
+  if mode != "beh" then throw "mode"
+  let m := Json.arr (steps.map fun (st, _) => obsBeh unique hay pats st).toArray
+  let s := Json.arr (steps.map fun (st, rem) => specBeh ic unique hay pats st.ref rem).toArray
   if idsOk && allGood then
     return Json.mkObj [("m", m), ("s", s)]
   else if idsOk && allTok && mis then
